@@ -125,6 +125,9 @@ func (r *Run) Cap(note string) {
 }
 
 func (r *Run) loadFindings() {
+	if os.Getenv("VERIF_IGNORE_KNOWN") != "" {
+		return // triage aid: regenerate witness sets from scratch
+	}
 	path := filepath.Join(Root, "known_findings", r.ID+".jsonl")
 	f, err := os.Open(path)
 	if err != nil {
